@@ -8,6 +8,7 @@ package sctp
 // role assignment and all 16 combinations of per-side options.
 
 import (
+	"math"
 	"errors"
 	"fmt"
 	"testing"
@@ -322,8 +323,21 @@ func vfRunHandshakeFailure(t *testing.T, spec *vfSpec, res *vfRes) {
 					res.violate("C19", "t1/budget/"+spec.Kind, "connect call failed after %v, expected %v (9 expiries doubling from 1 s, capped at RTO.max=%v ms) + %v", retT, want, spec.A.RTOMaxMs, rtt)
 				}
 				n := 0
+				var last time.Duration
+				rmax := spec.A.RTOMaxMs
+				if rmax == 0 {
+					rmax = 60000
+				}
 				for _, e := range sim.net.events() {
 					if e.Kind == vfWrWrite && e.Side == 0 && vfFirstChunkKind(e.Raw) == kind {
+						if n > 0 {
+							wantGap := time.Duration(math.Min(1000*float64(uint(1)<<uint(n-1)), rmax)) * time.Millisecond
+							res.count("c19_t1_gaps", 1)
+							if e.T-last != wantGap {
+								res.violate("C19", "t1/gap/"+spec.Kind, "%s retransmission #%d written %v after the previous one, expected %v (RTO.max %v ms)", kind, n, e.T-last, wantGap, rmax)
+							}
+						}
+						last = e.T
 						n++
 					}
 				}
